@@ -71,6 +71,7 @@ type cmpSem struct {
 	valueT   types.Type
 	opcodeT  types.Type
 	entry    map[int64]*ssa.BasicBlock // opcode value -> first block of its handler
+	opVal    map[int64]ssa.Value       // opcode value -> the dispatched value compared with it (a clause shared by several opcodes may look at it again)
 	cache    map[string]*cmpFacts
 	tables   map[string]map[cmpScenario]bool
 }
@@ -79,7 +80,7 @@ func newCmpSem(c *Ctx) *cmpSem {
 	if m, ok := c.memo["cmpsem"].(*cmpSem); ok {
 		return m
 	}
-	m := &cmpSem{c: c, exec: c.ssaFunc("interp", "interp.execute"), ipkg: c.ssaPkg("interp"), entry: map[int64]*ssa.BasicBlock{}, cache: map[string]*cmpFacts{}, tables: map[string]map[cmpScenario]bool{}}
+	m := &cmpSem{c: c, exec: c.ssaFunc("interp", "interp.execute"), ipkg: c.ssaPkg("interp"), entry: map[int64]*ssa.BasicBlock{}, opVal: map[int64]ssa.Value{}, cache: map[string]*cmpFacts{}, tables: map[string]map[cmpScenario]bool{}}
 	c.memo["cmpsem"] = m
 	if nt, _ := c.structType("interp", "value"); nt != nil {
 		m.valueT = nt
@@ -112,6 +113,7 @@ func newCmpSem(c *Ctx) *cmpSem {
 		if v, ok := constant.Int64Val(k.Value); ok {
 			if _, dup := m.entry[v]; !dup {
 				m.entry[v] = b.Succs[0]
+				m.opVal[v] = bo.X
 			}
 		}
 	}
@@ -253,7 +255,12 @@ func (m *cmpSem) table(vm *vmModel, op string) (map[cmpScenario]bool, []string) 
 						}
 						return true, ivBool(!cond.b), "jump"
 					}
-					e.startAt(m.exec, blk, nil)
+					e.ctx = m.c
+					var preset map[ssa.Value]iv
+					if ovv := m.opVal[ov]; ovv != nil {
+						preset = map[ssa.Value]iv{ovv: ivInt(ov)}
+					}
+					e.startAt(m.exec, blk, preset)
 					var results []bool
 					bad := ""
 					for _, o := range e.outcomes {
